@@ -2627,9 +2627,11 @@ class StateEngine(object):
             transition was specified. 
             """
             if next_state:
-                self.change_state(
+                error_type, error_message = self.change_state(
                     state_machine, state_type, next_state, event
                 )
+                if error_type:
+                    handle_error(state, error_type, error_message)
             else:
                 message = ("{} the 'Choice' state \"{}\" failed to find a match "
                            "for the condition field extracted from its input.".format(
